@@ -557,6 +557,21 @@ def shipped_check(runner, out, cov):
     cov["shipped_pinned"] = len([f for f in files if f in pins])
     return seen
 
+def extname_probe(runner, out):
+    """an auxiliary key named EXTNAME (accepted by write_key) ends up in the primary header; fits_movnam_hdu starts its search
+    at the primary HDU, so EXTNAME = 'KNOTSn' makes the reader take the coefficient image for a knot vector."""
+    c = Case([1], [[dbits(float(i)) for i in range(5)]], [fbits(1.0), fbits(2.0), fbits(3.0)], [dbits(1.0), dbits(3.0)], None, [(b"EXTNAME", b"KNOTS0")])
+    open(runner.p("xn.tbl"), "w").write("\n".join(c.lines(for_input=True)) + "\n")
+    open(runner.p("xn.list"), "w").write("xn %s %s\n" % (runner.p("xn.tbl"), runner.p("xn")))
+    sh([runner.harness, "w", runner.p("xn.list")], timeout=600)
+    got = strip_periods(read_dump(runner.p("xn.rtfile")))
+    want = c.lines(read_back=True)
+    runner.stats["comparisons"] += 1
+    d = first_diff(got, want)
+    if d:
+        out.violation("C06:aux-key:EXTNAME-shadows-KNOTSn", "read(write(t)) differs from t when t carries the auxiliary key EXTNAME='KNOTS0': %s: got %s, expected %s" % d,
+                      {"case": c.to_json(), "describe": c.describe(), "check": "aux-key:EXTNAME-shadows-KNOTSn"})
+
 def load_corpus():
     d = os.path.join(VERIF, "corpus", "C06")
     cases = []
@@ -600,6 +615,7 @@ def run(info, out):
     if corpus:
         fails += r.execute(corpus)
     shipped_check(r, out, cov)
+    extname_probe(r, out)
     n = 300 if tier == "quick" else 3000
     cases = [("g%d" % i, gen_case(rng.fork("case%d" % i), tier)) for i in range(n)]
     if tier == "thorough":
